@@ -6,6 +6,18 @@ import rbql
 import c10 as W
 import engine as EN
 
+KINDS = {'query parsing': 'P', 'IO handling': 'IO', 'query execution': 'R'}
+
+
+def classified(e):
+    """the error class by exception type AND as the public classifier (exception_to_error_info: command line, IPython magic,
+    editor integrations) reports it; the two must agree"""
+    ce = EN.canon_error(e)
+    kind = rbql.exception_to_error_info(e)[0]
+    if ce[0] in ('P', 'IO', 'R') and KINDS.get(kind) != ce[0]:
+        return ['O', 0, 'exception_to_error_info says %r for a %s' % (kind, type(e).__name__)]
+    return ce
+
 
 def run_case(c):
     d = tempfile.mkdtemp(prefix='c14w_', dir=os.environ.get('VERIF_SCRATCH'))
@@ -17,7 +29,7 @@ def run_case(c):
         try:
             rbql.query_csv(c['query'], inp, c['in_dlm'], c['in_pol'], outp, c['out_dlm'], c['out_pol'], c['enc'], warns, False)
         except Exception as e:
-            return {'out': None, 'warnings': None, 'error': EN.canon_error(e)}
+            return {'out': None, 'warnings': None, 'error': classified(e)}
         with open(outp, 'rb') as f:
             raw = f.read()
         return {'out': raw.decode(c['enc']), 'warnings': W.warn_kinds(warns), 'error': None}
